@@ -185,7 +185,7 @@ func checkLoaded(wd g.WarriorData, d asm.Dialect, m int, text string) string {
 		return fmt.Sprintf("entry point %d outside the code of %d instructions", wd.Start, n)
 	}
 	for i, ins := range wd.Code {
-		if int(ins.A) >= m || int(ins.B) >= m {
+		if ins.A >= g.Address(m) || ins.B >= g.Address(m) {
 			return fmt.Sprintf("instruction %d has a field >= core size %d: %v", i, m, ins)
 		}
 		ri, ok := fromG(ins)
@@ -211,9 +211,9 @@ func checkLoaded(wd g.WarriorData, d asm.Dialect, m int, text string) string {
 
 func runC10(c *Ctx) {
 	runPinned(c, "C10")
-	n := int64(20000)
+	n := int64(120000)
 	if c.Thorough() {
-		n = 1500000
+		n = 6000000
 	}
 	c.Cases(n, func(idx int64, r *Rng) {
 		d := asm.D94
